@@ -5,6 +5,7 @@ package main
 import (
 	"context"
 	"fmt"
+	"strings"
 
 	"github.com/oklog/ulid/v2"
 	openfgav1 "github.com/openfga/api/proto/openfga/v1"
@@ -54,28 +55,32 @@ func keysInit() {
 	keysModel, keysGraph = m, g
 }
 
+// ids from the whole accepted range: "!bob", "$", "(y" sort before the wildcard "*", "-x" ".x" between
+// it and the digits, then upper case, '_', lower case, '~', non-ASCII
+var keysObjs = []string{"doc:1", "doc:2", "doc:10", "doc:!9", "doc:~z", "doc:A", "group:1", "group:2", "group:(g", "group:!g"}
+var keysPlainUsers = []string{"user:a", "user:b", "user:!bob", "user:$", "user:(y", "user:-x", "user:.x", "user:0", "user:A", "user:_", "user:~z", "user:é"}
+
 func genKeysTuple(r *rec.Rand) *openfgav1.TupleKey {
-	objs := []string{"doc:1", "doc:2", "doc:10", "group:1", "group:2"}
-	o := rec.Pick(r, objs)
+	o := rec.Pick(r, keysObjs)
 	var rel, user, cond string
 	if tuple.GetType(o) == "group" {
 		rel = "member"
-		user = rec.Pick(r, []string{"user:a", "user:b", "user:*", "group:1#member", "group:2#member"})
-		if user == "user:a" || user == "user:b" {
+		user = rec.Pick(r, append(append([]string{}, keysPlainUsers...), "user:*", "user:*", "group:1#member", "group:2#member", "group:(g#member"))
+		if strings.HasPrefix(user, "user:") && user != "user:*" {
 			cond = rec.Pick(r, []string{"", "", "c1"})
 		}
 	} else {
 		rel = rec.Pick(r, []string{"viewer", "viewer", "editor"})
 		if rel == "viewer" {
-			user = rec.Pick(r, []string{"user:a", "user:b", "user:*", "group:1#member", "group:2#member", "group:1"})
-			switch user {
-			case "user:a", "user:b":
-				cond = rec.Pick(r, []string{"", "c1", "c2"})
-			case "user:*", "group:1#member", "group:2#member":
+			user = rec.Pick(r, append(append([]string{}, keysPlainUsers...), "user:*", "user:*", "group:1#member", "group:2#member", "group:(g#member", "group:1", "group:!g"))
+			switch {
+			case user == "user:*" || strings.Contains(user, "#"):
 				cond = rec.Pick(r, []string{"", "c1"})
+			case strings.HasPrefix(user, "user:"):
+				cond = rec.Pick(r, []string{"", "c1", "c2"})
 			}
 		} else {
-			user = rec.Pick(r, []string{"user:a", "user:b", "group:1#member"})
+			user = rec.Pick(r, append(append([]string{}, keysPlainUsers...), "group:1#member"))
 		}
 	}
 	var cx *structpb.Struct
@@ -88,7 +93,7 @@ func genKeysTuple(r *rec.Rand) *openfgav1.TupleKey {
 func runKeysCase(ctx context.Context, w *rec.Writer, seed uint64) {
 	keysInit()
 	r := rec.NewRand(seed)
-	n := r.Range(0, 16)
+	n := r.Range(0, 24)
 	dups := r.Chance(1, 3)
 	seen := map[string]bool{}
 	var ts []*openfgav1.TupleKey
@@ -167,8 +172,8 @@ func runKeysCase(ctx context.Context, w *rec.Writer, seed uint64) {
 		objs = append(objs, t.GetObject())
 		users = append(users, t.GetUser())
 	}
-	qObjs := []string{"doc:1", "doc:2", "doc:10", "group:1", "group:2"}
-	qUsers := []string{"user:a", "user:b", "user:*", "group:1#member", "group:2#member", "group:1"}
+	qObjs := keysObjs
+	qUsers := append(append([]string{}, keysPlainUsers...), "user:*", "group:1#member", "group:2#member", "group:(g#member", "group:1", "group:!g")
 	objs = append(objs, qObjs...)
 	users = append(users, qUsers...)
 	e := newEnc(objs, users)
